@@ -144,6 +144,52 @@ def _worker_ctor(items, base):
     return out
 
 
+def _worker_confused(items, base):
+    """type confusion: every constructor of the sweep with its k-th literal leaf (in construction order) replaced by a
+    leaf of the OTHER stack type, for every k.  Either PyTeal refuses (when the expression is built or compiled) or
+    the emitted program must pass the same abstract exploration: no opcode applied to a value of a wrong type"""
+    from ..recipe import gen_ctor
+    out = _new_out()
+    cnt, oc = out["counters"], out["outcomes"]
+    for name in items:
+        th = _CTOR[name]
+        for k in range(gen_ctor.leaf_count(th)):
+            cnt["transitions"] = cnt.get("transitions", 0) + 1
+            try:
+                w = gen_ctor.wrap(gen_ctor.confused(th, k)[0])
+            except drive.PT_ERRORS:
+                oc["confused:refused_when_built"] = oc.get("confused:refused_when_built", 0) + 1
+                continue
+            except Exception as e:
+                out["violations"].append({
+                    "driver": "ctor-confused", "size": 1, "title": "ctor %s with leaf %d of the other type: building died with %r" % (name, k, e),
+                    "recipe": {"constructor": name, "confused": k}, "cfg": rb.Cfg(6, "A").to_json(), "issue": ["build", 0, repr(e)[:80]],
+                    "features": {"kind": "crash", "driver": "ctor-confused", "static": True}})
+                continue
+            for v in (6, 10):
+                cfg = rb.Cfg(v, "A")
+                try:
+                    text = rb.compile_cfg(w, cfg)
+                except drive.PT_ERRORS:
+                    oc["confused:refused_when_compiled"] = oc.get("confused:refused_when_compiled", 0) + 1
+                    continue
+                except Exception as e:
+                    oc["confused:compile_died"] = oc.get("confused:compile_died", 0) + 1
+                    continue          # C20's business
+                p, an = analyse_text(text, cfg)
+                cnt["traces_validated"] = cnt.get("traces_validated", 0) + 1
+                cnt["abstract_states"] = cnt.get("abstract_states", 0) + an.states
+                oc["confused:accepted"] = oc.get("confused:accepted", 0) + 1
+                for rid, ln, msg in an.issues[:1]:
+                    out["violations"].append({
+                        "driver": "ctor-confused", "size": 1,
+                        "title": "ctor %s with leaf %d of the other type is accepted: %s at line %d of %s (v%d)" % (name, k, msg, ln, rid, v),
+                        "recipe": {"constructor": name, "confused": k}, "cfg": cfg.to_json(), "issue": [rid, ln, msg], "teal": text,
+                        "features": {"kind": "type", "driver": "ctor-confused", "static": True}})
+        cnt["states"] = cnt.get("states", 0) + 1
+    return out
+
+
 def _worker_routers(items, base):
     """approval and clear-state programs of Router configurations (action shapes, clear-state variants, method
     pairs): the same abstract exploration"""
@@ -229,6 +275,8 @@ def run(tier):
     rep.bounds["constructors"] = len(ents)
     for sh in common.pmap_shards(_worker_ctor, [n for n, _t in ents], order_seed=rep.seed):
         rep.merge(sh)
+    for sh in common.pmap_shards(_worker_confused, [n for n, _t in ents], order_seed=rep.seed):
+        rep.merge(sh)
     from . import c04
     ritems = c04.router_items(tier)
     rep.bounds["routers"] = len(ritems)
@@ -245,7 +293,17 @@ def replay(case):
     cfg = rb.Cfg.from_json(case["cfg"])
     if "constructor" in case["recipe"]:
         from ..recipe import gen_ctor
-        text = rb.compile_cfg(gen_ctor.wrap(dict(gen_ctor.entries())[case["recipe"]["constructor"]]()), cfg)
+        th = dict(gen_ctor.entries())[case["recipe"]["constructor"]]
+        if "confused" in case["recipe"]:
+            try:
+                text = rb.compile_cfg(gen_ctor.wrap(gen_ctor.confused(th, case["recipe"]["confused"])[0]), cfg)
+            except drive.PT_ERRORS as e:
+                print("refused now:", e)
+                return False
+            p, an = analyse_text(text, cfg)
+            print("issues:", an.issues[:3])
+            return bool(an.issues)
+        text = rb.compile_cfg(gen_ctor.wrap(th()), cfg)
         p, an = analyse_text(text, cfg)
         print("issues:", an.issues[:3], "main return heights:", sorted(an.main_return_heights))
         return bool(an.issues) or bool(an.main_return_heights - {1})
